@@ -181,9 +181,55 @@ def bin_run(exe, wdir, files, args, wfault=None, timeout=20):
             "wfault": wf, "mustfail": False}, created, err
 
 
+LEX_ALPHABET = list("afsmzAF019_$%;*\"\\ \t\r\n<>=-!&|:.,()[]{}#+/^~@`?'") + ["é", "日", "😀", "ß"]
+
+
+def lexer_family(ck, quick, rng):
+    """the tokenizer is total and tiles every text (Lexer.tla): MC_Lexer on all short texts over a small alphabet,
+    TraceLex on random texts, on texts made of the interesting fragments, and on mutated corpus lines"""
+    r = common.tlc("MC_Lexer", "MC_Lexer.cfg" if quick else "MC_Lexer_thorough.cfg", ck.wd, workers=6, timeout=3000)
+    ck.add_tlc(r)
+    ck.extra.setdefault("mc", []).append({"module": "MC_Lexer", "states": r.distinct, "ok": r.ok})
+    if not r.ok:
+        ck.violation("MC:MC_Lexer:" + str(r.violated), r.out[-2500:], {"tlc": r.out[-6000:]})
+    frags = ["$", "$ff", "$fg", "%", "%10", "%12", "%_", "$_", ";", ";*", "*;", ";* ;* *; *;", "\"", "\\\"", "\"a\"", "\"a\\\"b\"", "\\",
+             "0x1f", "1_000", "9z", "asm", "true", "falsey", "_x", ">>>", ">>", ">=", "=>", "==", "<-", "<=", "<<", "->", "::", ":", "&&", "||",
+             "!=", "\n", " \t\r", "é", "日本", "😀", "#d8", ".x", "x:", "`8", "@"]
+    texts = []
+    n = 1500 if quick else 60000
+    for i in range(n):
+        c = rng.random()
+        if c < 0.45:
+            texts.append("".join(rng.choice(LEX_ALPHABET) for _ in range(rng.randrange(0, 30))))
+        elif c < 0.85:
+            texts.append("".join(rng.choice(frags) + rng.choice(["", "", " ", "\n"]) for _ in range(rng.randrange(1, 9))))
+        else:
+            base = rng.choice(SMALL_PROGRAMS)
+            texts.append(mutate.mutate(rng, base)[:60])
+    jobs = [{"mode": "lex", "texts": texts[k:k + 300]} for k in range(0, len(texts), 300)]
+    results = common.run_jobs(jobs, ck.wd + "/lexjobs")
+    events = []
+    for k, (j, r) in enumerate(zip(jobs, results)):
+        if r.get("crash") or r.get("panic"):
+            ck.violation("panic:lex:%s" % str(r.get("panic") or r.get("crash"))[:80], {"texts": j["texts"][:5]}, {"job": j})
+            continue
+        for t, toks in zip(j["texts"], r["lexed"]):
+            events.append({"ev": "lex", "case": len(events), "cs": [ord(ch) for ch in t], "toks": toks, "text": t})
+    ck.evaluations += len(events)
+    failed = tv.judge(ck, "TraceLex", "TraceLex.cfg", [{k: v for k, v in e.items() if k != "text"} for e in events], ck.wd, tag="lex",
+                      shard=3000, timeout=3000, jobs=6)
+    ck.traces += len(events)
+    for case in sorted(failed)[:40]:
+        e = events[case]
+        ck.violation("TraceLex:" + "+".join(sorted(set(failed[case]))), {"text": e["text"], "observed": e["toks"]},
+                     {"text": e["text"], "codepoints": e["cs"], "observed": e["toks"], "spec": "TraceLex"})
+    ck.extra["lexed_texts"] = len(events)
+
+
 def run_c03(ck):
     quick = ck.tier == "quick"
     rng = random.Random(ck.seed)
+    lexer_family(ck, quick, random.Random(ck.seed + 303))
     # 1. the design: no path of the modelled code reports and still delivers
     r = common.tlc("MC_Driver", "MC_Driver_current.cfg", ck.wd, workers=4, timeout=600)
     ck.add_tlc(r)
